@@ -164,6 +164,10 @@ type c20Case struct {
 	F      c20Flags
 	U      *c20UFile // stream `universe`: the generated universe file
 	Tags   []string
+	Files  []c20File  // stream `split`: the journal as a tree of included files (Files[0] is the root)
+	Envs   [][]string // stream `split`: the environments (schedule seed, GOMAXPROCS) of the runs of this case
+	Env    []string   // … of this run
+	RunNo  int
 
 	RetCode             int
 	RetOut, RetErr      string
@@ -182,6 +186,14 @@ func (tc *c20Case) Input() map[string]any {
 		"weights_args": "portfolio weights --csv " + strings.Join(tc.F.weightsArgs("UNIVERSE"), " ") + " FILE",
 		"balance_args": "balance " + strings.Join(tc.F.balanceArgs(), " ") + " FILE",
 		"universe":     tc.F.universeYAML(), "wire_flags": tc.F.Wire(), "wire_journal": tc.J.Wire()}
+	if tc.Files != nil {
+		var fs []map[string]any
+		for _, f := range tc.Files {
+			fs = append(fs, map[string]any{"file": f.Rel, "text": f.Body, "leading_comment_bytes": f.Pad})
+		}
+		in["files"], in["run"], in["env"] = fs, tc.RunNo, strings.Join(tc.Env, " ")
+		in["note"] = "FILE is the first of `files`, the others are included from it; the outcome may depend on the goroutine schedule (which file's directives reach the journal builder first): a replay runs the case under all its environments"
+	}
 	if tc.U != nil {
 		// the file is regenerated from (seed, stream, index, tier); a long one is shown shortened
 		in["universe"] = c20UElide(tc.U.Text)
@@ -384,6 +396,9 @@ func c20GenCase(c *Ctx, stream string, i int) *c20Case {
 	if stream == "universe" {
 		c20ApplyUniverse(c, tc)
 	}
+	if stream == "split" {
+		c20Split(c, tc)
+	}
 	tc.Text, _ = j.Text()
 	return tc
 }
@@ -480,21 +495,32 @@ func c20DecString(v *big.Rat) string {
 }
 
 func (tc *c20Case) run(c *Ctx, dir string) {
-	base := filepath.Join(dir, fmt.Sprintf("%s%d", tc.Stream, tc.Idx+1000000))
+	base := filepath.Join(dir, fmt.Sprintf("%s%dr%d", tc.Stream, tc.Idx+1000000, tc.RunNo))
 	path := base + ".knut"
 	upath := base + ".yaml"
-	os.WriteFile(path, []byte(tc.Text), 0o644)
+	if tc.Files != nil {
+		tree := base + ".d"
+		defer os.RemoveAll(tree)
+		for _, f := range tc.Files {
+			full := filepath.Join(tree, f.Rel)
+			os.MkdirAll(filepath.Dir(full), 0o755)
+			os.WriteFile(full, []byte(f.Text()), 0o644)
+		}
+		path = filepath.Join(tree, tc.Files[0].Rel)
+	} else {
+		os.WriteFile(path, []byte(tc.Text), 0o644)
+	}
 	if len(tc.F.Universe) > 0 || tc.F.UniText != "" {
 		os.WriteFile(upath, []byte(tc.F.universeYAML()), 0o644)
 	}
 	to := 20 * time.Second
-	tc.RetCode, tc.RetOut, tc.RetErr = runKnut(c.KnutBin, to, nil, append(append([]string{"portfolio", "returns"}, tc.F.windowArgs()...), path)...)
+	tc.RetCode, tc.RetOut, tc.RetErr = runKnut(c.KnutBin, to, tc.Env, append(append([]string{"portfolio", "returns"}, tc.F.windowArgs()...), path)...)
 	wa := tc.F.weightsArgs(upath)
-	tc.WCode, tc.WCsv, tc.WErr = runKnut(c.KnutBin, to, nil, append(append([]string{"portfolio", "weights", "--csv"}, wa...), path)...)
+	tc.WCode, tc.WCsv, tc.WErr = runKnut(c.KnutBin, to, tc.Env, append(append([]string{"portfolio", "weights", "--csv"}, wa...), path)...)
 	if tc.WCode == 0 {
-		tc.WTxtCode, tc.WTxt, _ = runKnut(c.KnutBin, to, nil, append(append([]string{"portfolio", "weights", "--color=false", "--digits", "4"}, wa...), path)...)
+		tc.WTxtCode, tc.WTxt, _ = runKnut(c.KnutBin, to, tc.Env, append(append([]string{"portfolio", "weights", "--color=false", "--digits", "4"}, wa...), path)...)
 		if tc.F.Val != "" {
-			tc.BalCode, tc.BalOut, _ = runKnut(c.KnutBin, to, nil, append(append([]string{"balance"}, tc.F.balanceArgs()...), path)...)
+			tc.BalCode, tc.BalOut, _ = runKnut(c.KnutBin, to, tc.Env, append(append([]string{"balance"}, tc.F.balanceArgs()...), path)...)
 		}
 	}
 	os.Remove(path)
@@ -1293,6 +1319,208 @@ func c20Check(c *Ctx, bt *Batch, tc *c20Case, agreed *bool) {
 	}
 }
 
+// ---------------------------------------------------------------- stream `split`: the journal over several included files
+
+type c20File struct {
+	Rel  string
+	Pad  int    // bytes of comment lines in front of the body (files of different sizes take different times to parse)
+	Body string // includes and directives
+}
+
+func (f c20File) Text() string {
+	const line = "# ---------------------------------------------------------------------------\n"
+	var b strings.Builder
+	for b.Len() < f.Pad {
+		b.WriteString(line)
+	}
+	b.WriteString(f.Body)
+	return b.String()
+}
+
+// c20Split turns a case into a journal tree. The directives of the journal are what the single-file streams generate plus
+// accounts that are opened LATER than the first day: on the period end days of the requested partition (days that otherwise
+// hold nothing, or a price, or a transaction) and on arbitrary days inside and after the span, some of them used by a
+// transaction afterwards. The directives are then laid out over 2-4 files the way journals are kept: accounts in one
+// file, prices and transactions in others (by kind), one file per stretch of dates, or at random; in date order inside a
+// file or in the order of the generator; the root holds directives of its own or only includes; members included from
+// the root or in a chain; some files carry a long leading comment. Every case runs 2-3 times: plain and under
+// KNUT_VERIF_SEED / GOMAXPROCS settings, since the files are parsed and converted concurrently and the order in which
+// their directives reach journal.Builder is up to the schedule. The model and all monitors see the union of the
+// directives: a report must not depend on the file a directive stands in, nor on the arrival order.
+func c20Split(c *Ctx, tc *c20Case) {
+	r := c.Rng(tc.Stream+"/files", tc.Idx)
+	j := tc.J
+	lo, hi := c20Span(j)
+	priced := []string{}
+	for _, d := range j.Dirs {
+		if d.Kind == 'p' {
+			priced = append(priced, d.Com)
+		}
+	}
+	if tc.F.Val != "" {
+		priced = append(priced, tc.F.Val)
+	}
+	n := 0
+	late := func(day int) {
+		n++
+		top := Pick(r, []string{"Assets", "Assets", "Assets", "Liabilities", "Expenses", "Income"})
+		acc := fmt.Sprintf("%s:Late%d", top, n)
+		j.Dirs = append(j.Dirs, JDir{Kind: 'o', Date: day, Account: acc})
+		if c16IsAL(acc) && len(priced) > 0 && r.Chance(1, 3) {
+			// … and used: funded from an account of its own, so that no other balance changes
+			src := fmt.Sprintf("Income:LateSource%d", n)
+			j.Dirs = append(j.Dirs, JDir{Kind: 'o', Date: day, Account: src},
+				JDir{Kind: 't', Date: day + r.Range(0, 1)*r.Range(0, 40), Desc: "late funding",
+					Bookings: []JBook{{Credit: src, Debit: acc, Qty: fmt.Sprintf("%d.%02d", r.Range(1, 5000), r.Intn(100)), Com: Pick(r, priced)}}})
+		}
+	}
+	ends, _, _, ok := c20Partition(j, tc.F)
+	onEnds := r.Intn(4) // 0: no account is opened on a period end; 1: on every end; 2, 3: on some
+	if ok && onEnds > 0 {
+		for k, e := range ends {
+			if k < 200 && (onEnds == 1 || r.Chance(2, 3)) {
+				late(e)
+			}
+		}
+		tc.Tags = append(tc.Tags, "opens-on-period-ends")
+	}
+	for k := r.Range(0, 3); k > 0; k-- {
+		late(lo + r.Intn(hi-lo+30))
+	}
+
+	// ---- layout
+	nf := r.Range(2, 4)
+	assign := make([]int, len(j.Dirs))
+	layout := Pick(r, []string{"by-kind", "by-kind", "by-date", "random"})
+	switch layout {
+	case "by-kind":
+		fp, ft, ft2 := r.Range(1, nf-1), r.Range(1, nf-1), r.Range(1, nf-1)
+		mid := lo + r.Intn(hi-lo+1)
+		for i, d := range j.Dirs {
+			switch {
+			case d.Kind == 'o':
+				assign[i] = 0
+			case d.Kind == 'p':
+				assign[i] = fp
+			case d.Date > mid:
+				assign[i] = ft2
+			default:
+				assign[i] = ft
+			}
+		}
+	case "by-date":
+		cuts := make([]int, nf-1)
+		for k := range cuts {
+			cuts[k] = lo + r.Intn(hi-lo+2)
+		}
+		sort.Ints(cuts)
+		perm := c20Perm(r, nf)
+		for i, d := range j.Dirs {
+			k := 0
+			for k < len(cuts) && d.Date >= cuts[k] {
+				k++
+			}
+			assign[i] = perm[k]
+		}
+	default:
+		// the price directives of one date stay together, in their order: of two quotes of a pair on one day the later one
+		// counts, and which is later is up to the schedule when they come from different files (known finding
+		// valued-reports-same-day-requote-across-files, C06)
+		priceFile := map[int]int{}
+		for i, d := range j.Dirs {
+			assign[i] = r.Intn(nf)
+			if d.Kind == 'p' {
+				if k, ok := priceFile[d.Date]; ok {
+					assign[i] = k
+				}
+				priceFile[d.Date] = assign[i]
+			}
+		}
+	}
+	sorted := r.Chance(2, 3)
+	rootHolds := r.Chance(1, 2) // the root holds the directives of file 0 itself, or it only includes
+	chain := r.Chance(1, 4)
+	incFirst := r.Chance(1, 2)
+	var members []c20File
+	for k := 0; k < nf; k++ {
+		var ds []JDir
+		for i, d := range j.Dirs {
+			if assign[i] == k {
+				ds = append(ds, d)
+			}
+		}
+		if sorted {
+			sort.SliceStable(ds, func(a, b int) bool { return ds[a].Date < ds[b].Date })
+		}
+		var b strings.Builder
+		for _, d := range ds {
+			b.WriteString(d.Text())
+			b.WriteString("\n")
+		}
+		f := c20File{Rel: fmt.Sprintf("%s%d.knut", Pick(r, []string{"f", "sub/f", "sub/deep/f"}), k), Body: b.String()}
+		if r.Chance(1, 3) {
+			f.Pad = Pick(r, []int{300, 5000, 70000, 300000})
+		}
+		members = append(members, f)
+	}
+	// order of the include lines
+	order := c20Perm(r, nf)
+	inc := func(from, to string) string {
+		rel, _ := filepath.Rel(filepath.Dir(from), to)
+		return fmt.Sprintf("include \"%s\"\n\n", rel)
+	}
+	var files []c20File
+	if rootHolds {
+		root := members[order[0]]
+		root.Rel = "main.knut"
+		members[order[0]] = root
+	} else {
+		members = append(members, c20File{Rel: "main.knut"})
+		order = append([]int{nf}, order...)
+	}
+	for pos, k := range order {
+		f := members[k]
+		var incs string
+		for q := pos + 1; q < len(order); q++ {
+			if (chain && q == pos+1) || (!chain && pos == 0) {
+				incs += inc(f.Rel, members[order[q]].Rel)
+			}
+		}
+		if incFirst {
+			f.Body = incs + f.Body
+		} else {
+			f.Body += incs
+		}
+		files = append(files, f)
+	}
+	tc.Files = files
+	tc.Envs = [][]string{nil}
+	for k := r.Range(1, 2); k > 0; k-- {
+		env := []string{fmt.Sprintf("KNUT_VERIF_SEED=%d", r.Range(1, 100000))}
+		if p := Pick(r, []string{"", "1", "2", "16"}); p != "" {
+			env = append(env, "GOMAXPROCS="+p)
+		}
+		tc.Envs = append(tc.Envs, env)
+	}
+	tc.Env = tc.Envs[0]
+	tc.Tags = append(tc.Tags, "split-"+layout, fmt.Sprintf("split-files%d", len(files)))
+	if sorted {
+		tc.Tags = append(tc.Tags, "split-date-order")
+	}
+}
+
+func c20Perm(r *RNG, n int) []int {
+	p := make([]int, n)
+	for i := range p {
+		p[i] = i
+	}
+	for i := n - 1; i > 0; i-- {
+		k := r.Intn(i + 1)
+		p[i], p[k] = p[k], p[i]
+	}
+	return p
+}
+
 func tagged(tags []string, t string) bool {
 	for _, x := range tags {
 		if x == t {
@@ -1310,7 +1538,13 @@ func runC20(c *Ctx) {
 			var cases []*c20Case
 			for i := a; i < min(a+4000, hi); i++ {
 				if c.Want(stream, i) {
-					cases = append(cases, c20GenCase(c, stream, i))
+					tc := c20GenCase(c, stream, i)
+					cases = append(cases, tc)
+					for k := 1; k < len(tc.Envs); k++ { // the same case under another schedule
+						again := *tc
+						again.RunNo, again.Env = k, tc.Envs[k]
+						cases = append(cases, &again)
+					}
 				}
 			}
 			parallelFor(len(cases), 16, func(k int) { cases[k].run(c, dir) })
@@ -1338,6 +1572,7 @@ func runC20(c *Ctx) {
 	for a, nu := 0, c.N(400, 1500); a < nu; a += 400 { // in portions: the universe files are large
 		d += runStream("universe", a, min(a+400, nu))
 	}
+	d += runStream("split", 0, c.N(300, 6000))
 	runC20UniverseReader(c, c.N(500, 3000))
 	runDecStream(c, c.N(2000, 20000))
 	if d > 0 && !c.Replay {
